@@ -74,9 +74,18 @@ const NKINDS: u64 = 6;
 thread_local! {
     static FUTILE_STEPS: Cell<u64> = const { Cell::new(0) };
     static TOTAL_STEPS: Cell<u64> = const { Cell::new(0) };
+    static LAST_POPULATED: Cell<usize> = const { Cell::new(usize::MAX) };
+    static NO_PROGRESS: Cell<u64> = const { Cell::new(0) };
+    /// true while a RevOptDensMinHash is driven on this thread (its hook ticks once per pass, not per search step)
+    static IS_REV: Cell<bool> = const { Cell::new(false) };
 }
 const SPIN_MSG: &str = "verif-monitor: densification spun with zero populated bins (nothing can ever be copied)";
+const STUCK_MSG: &str = "verif-monitor: densification made no progress";
 
+/// Progress hook. With zero populated bins no step can ever succeed (logical futility). With populated bins a search step
+/// (OptDens) succeeds with probability >= populated/m and a pass (RevOptDens) fills a bin with probability >= 1/2, the
+/// sequences being keyed differently at every step/pass: 400 + 40 m consecutive search steps (probability < e^-40) or 100
+/// consecutive passes (probability < 2^-100) without a newly filled bin are reported as non-termination.
 fn densify_cb(populated: usize, m: usize) {
     TOTAL_STEPS.with(|c| c.set(c.get() + 1));
     if populated == 0 {
@@ -87,6 +96,20 @@ fn densify_cb(populated: usize, m: usize) {
         if n > 64 * m as u64 + 1000 {
             panic!("{}", SPIN_MSG);
         }
+        return;
+    }
+    let last = LAST_POPULATED.with(|c| c.replace(populated));
+    if last == populated {
+        let n = NO_PROGRESS.with(|c| {
+            c.set(c.get() + 1);
+            c.get()
+        });
+        let limit = if IS_REV.with(|c| c.get()) { 100 } else { 400 + 40 * m as u64 };
+        if n > limit {
+            panic!("{} in {} consecutive search steps / passes ({} of {} bins populated)", STUCK_MSG, n, populated, m);
+        }
+    } else {
+        NO_PROGRESS.with(|c| c.set(0));
     }
 }
 
@@ -94,6 +117,8 @@ fn densify_cb(populated: usize, m: usize) {
 /// A panic carrying SPIN_MSG means the loop was provably futile (hang).
 fn guarded<F: FnOnce() -> Result<(), String>>(f: F) -> Result<Result<(), String>, String> {
     FUTILE_STEPS.with(|c| c.set(0));
+    NO_PROGRESS.with(|c| c.set(0));
+    LAST_POPULATED.with(|c| c.set(usize::MAX));
     catch(std::panic::AssertUnwindSafe(f))
 }
 
@@ -134,6 +159,7 @@ fn history(kind: usize, m: usize, seed: u64, len: usize) -> HistOut {
     let mut out = HistOut { nops: 0, nfinish: 0, nempty_finish: 0, fail: None, ops: vec![], triples: vec![], steps: 0 };
     probminhash::verif::set_densify_callback(Some(densify_cb));
     TOTAL_STEPS.with(|c| c.set(0));
+    IS_REV.with(|c| c.set(matches!(kind, 2 | 3 | 5)));
     let nohash = kind >= 4;
     let hash_of = |d: u64| -> u64 {
         if nohash {
@@ -211,6 +237,7 @@ fn history(kind: usize, m: usize, seed: u64, len: usize) -> HistOut {
             }
             match (&rt, &rr) {
                 (Ok(Ok(())), Ok(Ok(()))) => {}
+                (Err(msg), _) | (_, Err(msg)) if msg.contains("verif-monitor") => fail!("C09/no-termination", format!("step {}: finishing a non-empty sketch does not terminate: {}", step, msg)),
                 _ => fail!("C09/finish-failed", format!("step {}: finishing a non-empty sketch failed: end_sketch -> {:?}, sketch_slice -> {:?}", step, rt, rr)),
             }
             let post = twin.raw();
@@ -248,6 +275,11 @@ fn history(kind: usize, m: usize, seed: u64, len: usize) -> HistOut {
                 twin.reinit();
                 streamed.clear();
                 continue;
+            }
+            if let (Err(msg), _) | (_, Err(msg)) = (&rr, &rt) {
+                if msg.contains("verif-monitor") {
+                    fail!("C09/no-termination", format!("step {}: end_sketch on a non-empty sketch does not terminate: {}", step, msg));
+                }
             }
             if !matches!((&rr, &rt), (Ok(Ok(())), Ok(Ok(())))) {
                 fail!("C09/finish-failed", format!("step {}: end_sketch on a non-empty sketch failed: {:?}", step, rr));
@@ -305,7 +337,7 @@ fn history(kind: usize, m: usize, seed: u64, len: usize) -> HistOut {
 
 pub fn run(rep: &mut Report) {
     quiet_panics();
-    rep.rule = "random operation histories over {sketch(d), sketch_slice(ds incl. empty), end_sketch, reinit} (length <= 40, m in 1..512, both algorithms, f32/f64) run on the real sketcher and on a twin that replaces every slice call by item-wise calls + end_sketch; raw state (hook) snapshotted before/after every finishing step: populated bins untouched, every other bin = pair of a bin populated before, nb_empty == #unpopulated, hashes are hashes of streamed items, slice == item-wise + finish, end_sketch idempotent; termination decided on logical steps by the densify progress hook (a loop with zero populated bins is futile: violation after 64m+1000 steps; with populated bins steps are only counted); across all finished sketches u64->u32 and u64->float must be functions. Distinct = (kind, m, seed) histories; non-trivial when a finishing step was observed".into();
+    rep.rule = "random operation histories over {sketch(d), sketch_slice(ds incl. empty), end_sketch, reinit} (length <= 40, m in 1..512, both algorithms, f32/f64) run on the real sketcher and on a twin that replaces every slice call by item-wise calls + end_sketch; raw state (hook) snapshotted before/after every finishing step: populated bins untouched, every other bin = pair of a bin populated before, nb_empty == #unpopulated, hashes are hashes of streamed items, slice == item-wise + finish, end_sketch idempotent; termination decided on logical steps by the densify progress hook (zero populated bins: futile, violation after 64m+1000 steps; populated bins: 400+40m consecutive search steps (OptDens) or 100 consecutive passes (RevOptDens) without a newly filled bin have probability < e^-40 under the specified keyed sequences and are reported as non-termination); across all finished sketches u64->u32 and u64->float must be functions. Distinct = (kind, m, seed) histories; non-trivial when a finishing step was observed".into();
     let nh: u64 = rep.tier.pick(40_000, 1_500_000);
     let seed = subseed(rep.seed, "C09", &[]);
     let only = rep.only_cell.clone();
@@ -372,6 +404,6 @@ pub fn run(rep: &mut Report) {
     rep.count("densify_search_steps_observed", total_steps);
     rep.count("view_table_entries", (u32map.len() + f32map.len() + f64map.len()) as u64);
     collect_ticks(rep);
-    rep.assumptions.push("termination is decided only for the empty stream, where futility is a logical fact; with populated bins the search steps are counted, not judged".into());
+    rep.assumptions.push("non-termination with populated bins is decided by a logical-step bound whose false-alarm probability is < e^-40 per finishing step (ChaCha outputs under distinct keys taken as independent)".into());
     rep.assumptions.push("reporting failure = returning Err or panicking with a message".into());
 }
